@@ -151,7 +151,7 @@ def main(argv=None):
     for m, h in harnesses:
         cfgs = h.get(tier) or h.get('quick') or [{}]
         for cfg in cfgs:
-            jobs.append(dict(module=m, fn=h['fn'], config=cfg, name=h['name'], timeout=h.get('timeout', 60 if tier == 'quick' else 120),
+            jobs.append(dict(module=m, fn=h['fn'], config=cfg, name=h['name'], native=h.get('native', True), timeout=h.get('timeout', 60 if tier == 'quick' else 120),
                              max_paths=h.get('max_paths', 20000), crosscheck=h.get('crosscheck', 2 if tier == 'quick' else 8),
                              seed=seed, helper=h.get('helper', False)))
     ctx = mp.get_context('fork')
@@ -180,6 +180,7 @@ def main(argv=None):
         touched.update(res['touched'])
         for o in res['obligations']:
             o['harness'], o['config'], o['module'], o['fn'] = job['name'], job['config'], job['module'], job['fn']
+            o['native'] = job.get('native', True)
             all_obls.append(o)
             solver_time += o['time']
             backends[o['backend']] = backends.get(o['backend'], 0) + 1
@@ -202,7 +203,11 @@ def main(argv=None):
     native_res = []
     if reps and not args.no_native:
         try:
-            native_res = native_batch(tasks)
+            idx = [i for i, o in enumerate(reps) if o.get('native', True)]      # mode-B harnesses (quantifiers, ghost state) have no native side
+            got = native_batch([tasks[i] for i in idx])
+            native_res = [None] * len(reps)
+            for i, r in zip(idx, got):
+                native_res[i] = r
         except Exception as e:
             engine_errors.append(f'native replay failed: {e}')
             native_res = [None] * len(reps)
